@@ -12,8 +12,9 @@
                                             P_DsigReader.canonical_bytes_reparse shows the reader answers Ok.)
    The second use, xml.Unmarshal of the canonical SignedInfo bytes, is Decoder.Decode on a fresh decoder: on the canonical
    form of one element (no XML declaration, nothing behind the end tag) the element its Token() loop consumes is the element
-   etree builds (P_XmlTok section 3), attribute de-duplication aside, which the struct decoder cannot observe (the last
-   attribute of a name wins in both); Dsig.unmarshal_signed_info decodes that tree DIRECTLY (Schema.view_direct).
+   etree builds, attribute de-duplication aside (P_DsigReader.canonical_bytes_token_view: equal for an element without
+   repeated attribute names; with one, the struct decoder cannot tell -- the last attribute of a name wins in both);
+   Dsig.unmarshal_signed_info decodes that tree DIRECTLY (Schema.view_direct).
 
    With [canon := Canon.canon_model] and [reparse := reparse_model] the verifier model has no oracle left but the
    cryptography (digest, signature check), the X.509 parser and -- for elements with more than 12 attributes that
@@ -41,6 +42,19 @@ Definition dsig_obs_model2 (t : oracle_tables) (store : list cert) (now : instan
   VL [ dsig_obs_gen (canon_hybrid (ot_canon t)) reparse_model t store now root exp_tree exp_mut;
        canon_table_check (ot_canon t);
        reparse_table_check (ot_reparse t) ].
+
+(* ---- the premise of the round-trip theorems (P_DsigReader.c14n_wf), evaluated on the trees of the correspondence run ----
+   Every element of the "validate" stream was delivered by etree.ReadFromBytes; the theorem's premise is a boolean, so it is
+   evaluated on each of them: unless the element holds a directive or a <?xml ...?> processing instruction inside (what the
+   premise excludes on purpose), it must hold.  Evidence that the premise is what reader-produced trees satisfy (it is not
+   proved that read_tree delivers only such trees). *)
+Fixpoint has_directive_or_xml_pi (n : node) : bool :=
+  match n with
+  | Elem _ _ _ k => existsb has_directive_or_xml_pi k
+  | Directive _ => true
+  | ProcInst t _ => t =?s "xml"
+  | _ => false
+  end.
 
 (* the verifier with both oracles instantiated *)
 Definition dsig_validate_reader (digest : string -> string -> option string) (sig_ok : cert -> string -> string -> string -> bool)
